@@ -10,6 +10,16 @@ B8 = z3.BitVecSort(8)
 Int = z3.IntSort()
 
 
+def proxy_class_names():
+    out = set()
+    def rec(c):
+        out.add(c.__name__)
+        for k in c.__subclasses__():
+            rec(k)
+    rec(Proxy)
+    return out
+
+
 def _esc(what):
     def f(self, *a, **k):
         raise EngineEscape('%s on %s' % (what, type(self).__name__))
@@ -18,6 +28,14 @@ def _esc(what):
 
 class Proxy(object):
     __hash__ = None
+
+    # the REAL builtin isinstance() falls back to obj.__class__ when type(obj) does not
+    # match, so code that runs outside a namespace copy (real classes of other modules)
+    # still sees an SInt as an int, an SBytes as bytes, ...
+    @property
+    def __class__(self):
+        return getattr(type(self), '_pyclass', None) or self.__dict__.get('_pyclass') or type(self)
+
     __index__ = _esc('__index__')
     __int__ = _esc('__int__')
     __len__ = _esc('__len__ (use the len model)')
@@ -55,7 +73,7 @@ class SBool(Proxy):
 def lbool(x):
     if isinstance(x, SBool):
         return x.t
-    if isinstance(x, bool):
+    if type(x) is bool:
         return z3.BoolVal(x)
     if z3.is_expr(x):
         return x
@@ -66,9 +84,9 @@ def lift(x):
     """Python int / SInt -> z3 Int term"""
     if isinstance(x, SInt):
         return x.t
-    if isinstance(x, bool):
+    if type(x) is bool:
         return z3.IntVal(int(x))
-    if isinstance(x, int):
+    if type(x) is int:
         return z3.IntVal(x)
     if z3.is_expr(x) and x.sort() == Int:
         return x
@@ -76,7 +94,7 @@ def lift(x):
 
 
 def _liftable(x):
-    return isinstance(x, (SInt, int)) and not isinstance(x, bool) or isinstance(x, bool)
+    return isinstance(x, SInt) or type(x) in (int, bool)
 
 
 def _width_for(t, cands=(8, 16, 32, 64)):
@@ -136,17 +154,17 @@ class SInt(Proxy):
         return self
 
     def __floordiv__(self, o):
-        if isinstance(o, int) and o > 0:
+        if type(o) is int and o > 0:
             return SInt(self.t / o)      # z3 Int division with positive divisor == floor division
         raise EngineEscape('// by non-constant or non-positive')
 
     def __mod__(self, o):
-        if isinstance(o, int) and o > 0:
+        if type(o) is int and o > 0:
             return SInt(self.t % o)
         raise EngineEscape('% by non-constant or non-positive')
 
     def __and__(self, o):
-        if isinstance(o, int) and not isinstance(o, bool):
+        if type(o) is int:
             if o >= 0:
                 if o & (o + 1) == 0:                       # 2**k - 1
                     return SInt(self.t % (o + 1))
@@ -167,7 +185,7 @@ class SInt(Proxy):
             return NotImplemented
         ot = lift(o)
         w = _width_for(self.t)
-        if isinstance(o, int):
+        if type(o) is int:
             if o < 0:
                 raise EngineEscape('| with negative constant')
             w = max(w, o.bit_length())
@@ -180,12 +198,12 @@ class SInt(Proxy):
         raise EngineEscape('^')
 
     def __lshift__(self, o):
-        if isinstance(o, int) and o >= 0:
+        if type(o) is int and o >= 0:
             return SInt(self.t * (2 ** o))
         raise EngineEscape('<< by non-constant')
 
     def __rshift__(self, o):
-        if isinstance(o, int) and o >= 0:
+        if type(o) is int and o >= 0:
             return SInt(self.t / (2 ** o))
         raise EngineEscape('>> by non-constant')
 
@@ -199,18 +217,18 @@ slice_of = z3.Function('slice', BlobSort, Int, Int, BlobSort)  # slice(b, start,
 
 
 def lit(c):
-    return ('b', z3.BitVecVal(c, 8) if isinstance(c, int) else c)
+    return ('b', z3.BitVecVal(c, 8) if type(c) is int else c)
 
 
 def blob(idt, length):
-    return ('blob', idt, length)
+    return ('blob', idt, z3.IntVal(length) if type(length) is int else length)
 
 
 def chunks_of(x):
     """bytes / SBytes / chunk tuple -> chunk tuple"""
     if isinstance(x, SBytes):
         return x.chunks
-    if isinstance(x, (bytes, bytearray)):
+    if type(x) in (bytes, bytearray):
         return tuple(lit(c) for c in bytes(x))
     if isinstance(x, tuple):
         return x
@@ -260,16 +278,29 @@ def _chunk_same(x, y):
     return x[1] == y[1] and x[2].eq(y[2])
 
 
+def byte_of_blob(idt, i):
+    """BV8 term of byte i of a blob; slices are resolved to the blob they are cut from"""
+    i = z3.IntVal(i) if type(i) is int else i
+    while z3.is_app(idt) and idt.decl().eq(slice_of):
+        i = z3.simplify(idt.arg(1) + i)
+        idt = idt.arg(0)
+    return blob_byte(idt, i)
+
+
 def norm_chunks(ch):
-    """drop empty chunks; fold  rep(key,k) ++ elems(k)  into  rep(key,k+1)  (definition of rep)"""
+    """drop empty chunks; expand blobs of small concrete length into their bytes; fold
+    rep(key,k) ++ elems(k)  into  rep(key,k+1)  (definition of rep)"""
     out = []
     ch = list(ch)
     i = 0
     while i < len(ch):
         c = ch[i]
-        if c[0] == 'blob' and z3.is_int_value(z3.simplify(c[2])) and z3.simplify(c[2]).as_long() == 0:
-            i += 1
-            continue
+        if c[0] == 'blob' and z3.is_int_value(z3.simplify(c[2])):
+            n = z3.simplify(c[2]).as_long()
+            if n <= 16:
+                out.extend(lit(byte_of_blob(c[1], j)) for j in range(n))
+                i += 1
+                continue
         if c[0] == 'rep' and z3.is_int_value(c[2]) and c[2].as_long() == 0:
             i += 1
             continue
@@ -337,12 +368,12 @@ class SBytes(Proxy):
         return '<SBytes %d chunks>' % len(self.chunks)
 
     def __add__(self, o):
-        if not isinstance(o, (SBytes, bytes)):
+        if not (isinstance(o, SBytes) or type(o) is bytes):
             return NotImplemented
         return mk_bytes(cat(self, o))
 
     def __radd__(self, o):
-        if not isinstance(o, (SBytes, bytes)):
+        if not (isinstance(o, SBytes) or type(o) is bytes):
             return NotImplemented
         return mk_bytes(cat(o, self))
 
@@ -357,12 +388,12 @@ class SBytes(Proxy):
         return r
 
     def __eq__(self, o):
-        if not isinstance(o, (SBytes, bytes)):
+        if not (isinstance(o, SBytes) or type(o) is bytes):
             return False
         return SBool(self._eq(o))
 
     def __ne__(self, o):
-        if not isinstance(o, (SBytes, bytes)):
+        if not (isinstance(o, SBytes) or type(o) is bytes):
             return True
         return SBool(z3.Not(self._eq(o)))
 
@@ -381,11 +412,11 @@ class SBytes(Proxy):
                 ln = z3.simplify(c[2])
                 if z3.is_int_value(ln):
                     if i < off + ln.as_long():
-                        return blob_byte(c[1], z3.IntVal(i - off))
+                        return byte_of_blob(c[1], i - off)
                     off += ln.as_long()
                 else:
                     # symbolic-length blob: only its own bytes can be addressed if it is the last chunk reached
-                    return blob_byte(c[1], z3.IntVal(i - off))
+                    return byte_of_blob(c[1], i - off)
         raise EngineEscape('byte_at(%d) beyond the shape' % i)
 
     def sord(self):
@@ -393,9 +424,15 @@ class SBytes(Proxy):
         return SInt(z3.BV2Int(self.byte_at(0)))
 
 
+BV_ALIAS = {}    # (ast id of an Int term, width) -> BV constant standing for Int2BV(term, width) (spec lemmas only)
+
+
 def be(t, n):
     """big-endian n-byte two's-complement image of Int term t: n literal chunks"""
-    bv = z3.Int2BV(t, 8 * n)
+    t = z3.IntVal(t) if type(t) is int else t
+    bv = BV_ALIAS.get((t.get_id(), 8 * n))
+    if bv is None:
+        bv = z3.Int2BV(t, 8 * n)
     return tuple(lit(z3.simplify(z3.Extract(8 * (n - 1 - i) + 7, 8 * (n - 1 - i), bv))) for i in range(n))
 
 
@@ -459,6 +496,28 @@ def m_bool(x=False):
     return _b.bool(x)
 
 
+class _TypeModelMeta(type):
+    def __instancecheck__(cls, x):
+        return _b.isinstance(x, cls._real)
+
+    def __subclasscheck__(cls, c):
+        return _b.issubclass(c, cls._real)
+
+    def __eq__(cls, o):
+        return o is cls or o is cls._real
+
+    def __hash__(cls):
+        return hash(cls._real)
+
+
+class BoolModel(metaclass=_TypeModelMeta):
+    """stands for the builtin `bool` in a namespace copy: isinstance(x, bool) and bool(x)"""
+    _real = _b.bool
+
+    def __new__(cls, x=False):
+        return m_bool(x)
+
+
 def guard_builtin(name, f):
     def g(*a, **k):
         for x in list(a) + list(k.values()):
@@ -469,7 +528,7 @@ def guard_builtin(name, f):
     return g
 
 
-MODELS = {'len': m_len, 'ord': m_ord, 'isinstance': m_isinstance, 'range': m_range, 'bool': m_bool}
+MODELS = {'len': m_len, 'ord': m_ord, 'isinstance': m_isinstance, 'range': m_range, 'bool': BoolModel}
 # builtins that are safe on proxies without a model (they only store / compare by identity / dispatch)
 PASS = {'type', 'id', 'getattr', 'setattr', 'hasattr', 'callable', 'super', 'object', 'property',
         'staticmethod', 'classmethod', 'issubclass', 'print', '__build_class__', '__import__',
